@@ -67,7 +67,32 @@ def oracle(seq_ops, impl):
             if ln > len(submitted) or int(h) != fnv(submitted[:ln]): return i, 'sink content is not a prefix of the flushed stream'
             if int(f['L']) != len(submitted) - ln: return i, 'flushed-but-unsent count wrong'
             if int(f['M']) != len(pending): return i, 'MallocLen wrong'
-            if opn == 'flush' and res == 'ok' and f['left'] == '0' and False: pass
+        elif kind in ('iow', 'ior'):
+            # NewIOWriter / NewIOReader over a LinkBuffer: what went in through one side comes out of the other, once, in order.
+            # The io.Writer's caller reuses its slice as soon as Write has returned (harness: callerWrite), as io.Copy does.
+            opn = t[2]
+            if opn in ('write', 'feed'):
+                n = int(t[3])
+                if opn == 'write':
+                    if not res.startswith('ok n:'): return None      # a Write that reports an error: nothing more is claimed
+                    if int(res[5:]) != n: return i, 'Write(%d bytes) returned n=%s without an error' % (n, res[5:])
+                submitted += [gen_byte(int(t[4]), k) for k in range(n)]
+            elif opn in ('drain', 'read') and res.startswith('ok b:'):
+                _, ln, h = res.split()[1].split(':'); ln = int(ln)
+                if ln > len(submitted) - dc or int(h) != fnv(submitted[dc:dc + ln]):
+                    return i, ('bytes read back from the wrapped Writer are not the next %d bytes written through NewIOWriter (stream position %d)' if kind == 'iow' else
+                               'bytes returned by NewIOReader.Read are not the next %d bytes of the wrapped Reader (stream position %d)') % (ln, dc)
+                dc += ln
+            if int(f['L']) != len(submitted) - dc: return i, 'written (%d) != read back (%d) + buffered (%s)' % (len(submitted), dc, f['L'])
+        elif kind == 'iowz':
+            # NewIOWriter over NewWriter over a scripted sink: every Write flushes, so at any time the sink holds a prefix of
+            # everything written so far and the rest is still buffered (it goes out with a later Write / Flush)
+            opn = t[2]
+            if opn == 'write': submitted += [gen_byte(int(t[4]), k) for k in range(int(t[3]))]
+            ln, h = f['sunk'].split(':'); ln = int(ln)
+            if ln > len(submitted) or int(h) != fnv(submitted[:ln]): return i, 'sink content is not a prefix of the stream written through NewIOWriter'
+            if int(f['L']) != len(submitted) - ln: return i, 'written (%d) != sunk (%d) + buffered (%s)' % (len(submitted), ln, f['L'])
+            if int(f['M']) != 0: return i, 'pending bytes left in the writer buffer after Write/Flush'
     return None
 
 def run_shard(binary, wd, seed, seqs, nops):
